@@ -170,6 +170,7 @@ func RunC06(c *Ctx) {
 	workload.W1R(sink)
 	workload.W7Templates(sink)
 	workload.W7Positions(72, sink)
+	workload.W7Triples(sink)
 	// string seeds of W1 in top-level position, every byte everywhere
 	workload.W1(c.Thorough(), func(cs *h.Case) {
 		if cs.P[0] < workload.TopLevelSeeds() {
